@@ -554,7 +554,7 @@ func init() {
 			"a trailing fragment dropped at end of input is 'a value', not a violation",
 			"component values are compared through the component's own MarshalBinary (octet form)",
 		},
-		Oracles:      map[string]func(*core.Ctx, *core.Case){"cold-concurrent": coldConcurrent, "rules-roundtrip": c15Rules, "descs-roundtrip": c15Descs, "unknown-id": c15UnknownID, "total": c15Total, "total-sweep": c15Sweep},
+		Oracles:      map[string]func(*core.Ctx, *core.Case){"cold-entries": coldEntries, "cold-concurrent": coldConcurrent, "rules-roundtrip": c15Rules, "descs-roundtrip": c15Descs, "unknown-id": c15UnknownID, "total": c15Total, "total-sweep": c15Sweep},
 		StallSeconds: 30,
 		Floors: func(tier string, cov map[string]map[string]int64, cnt map[string]int64) []string {
 			var f []string
@@ -648,6 +648,7 @@ func init() {
 			}
 		}
 		us = append(us, coldUnits(tier, "nasType", "qos", "handoff", "shared-parse")...)
+		us = append(us, coldEntryUnits(tier, "nasType", "qos")...)
 		return us
 	}
 	core.Register(p)
